@@ -30,6 +30,23 @@ def _depth(t):
     return 1
 
 
+def _collapse(v):
+    if isinstance(v, tuple) and v[0] == "o":
+        out = []
+        for k, x in v[1]:
+            x = _collapse(x)
+            for i, (k2, _) in enumerate(out):
+                if k2 == k:
+                    out[i] = (k, x)
+                    break
+            else:
+                out.append((k, x))
+        return ("o", out)
+    if isinstance(v, list):
+        return [_collapse(x) for x in v]
+    return v
+
+
 def _flags_key(fl):
     return " ".join(fl)
 
@@ -91,6 +108,11 @@ def check_one(rep, binary, doc_bytes, tagged, flags, via_file, tmp, multi=None):
         rep.violation("C11:result_count", f"jq {fk}: {len(vals)} outputs for {len(want)} inputs", replay)
         return
     for got, w in zip(vals, want):
+        if cmp_has_dup(got) and "--preserve-input" in flags:
+            # --preserve-input copies the source text verbatim (documented); a conforming reader still
+            # reads the same value, so collapse the output the way a reader does and compare values
+            rep.count("preserve_input.duplicates_kept_verbatim")
+            got = _collapse(got)
         if cmp_has_dup(got):
             rep.violation("C11:duplicate_key_in_output", f"jq {fk}: output object has duplicate keys", replay)
             return
@@ -124,6 +146,7 @@ def run(leg, seed, tier, replay=None):
         rnd = random.Random(seed * 7919 + 11)
         n = 260 if tier == "quick" else 4000
         docs = climon.gen_lines("gen-json", seed, n)
+        docs += climon.gen_lines("gen-json", seed + 2, n // 6, profile="dups")
         deep = climon.gen_lines("gen-json", seed + 1, 12 if tier == "quick" else 80, profile="deep", depth=250)
         jobs = []
         for i, d in enumerate(docs):
